@@ -179,8 +179,7 @@ func Atomic(key interface{}, fn func()) {
 	}
 	ob := s.objs[key]
 	if ob == nil {
-		ob = &Obj{hid: HashString(fmt.Sprint(key))}
-		s.objs[key] = ob
+		ob = s.newObj(key)
 	}
 	o := &op{kind: opLocal, tag: 0x7005}
 	s.do(o)
@@ -188,6 +187,34 @@ func Atomic(key interface{}, fn func()) {
 	s.bump(g, ob.hid.A, ob.h.A, ob.h.B)
 	ob.h = MixH(ob.h, g.chain)
 	fn()
+}
+
+// newObj names a shared object independently of heap addresses: strings by
+// content, everything else by (creating or first touching goroutine, index).
+func (s *Sched) newObj(key interface{}) *Obj {
+	var hid H
+	if str, ok := key.(string); ok {
+		hid = HashString(str)
+	} else if g := s.cur; g != nil {
+		hid = Mix(g.chain, 0x79, uint64(g.nmake))
+		g.nmake++
+	} else {
+		EngineError("shared object touched outside a controlled goroutine")
+	}
+	ob := &Obj{hid: hid}
+	s.objs[key] = ob
+	return ob
+}
+
+// RegisterObj names a shared object at creation time (by its creator).
+func RegisterObj(key interface{}) {
+	s := current
+	if s == nil || s.aborting || s.cur == nil {
+		return
+	}
+	if s.objs[key] == nil {
+		s.newObj(key)
+	}
 }
 
 // Fail records a harness-detected violation in the current execution.
